@@ -111,14 +111,20 @@ Proof.
   split; apply gnameb_base; eapply sheet_bases_in; eauto; unfold cond_bases; [left|right; left]; reflexivity.
 Qed.
 
+Lemma starts_with_app p x : starts_with p (p ++ x) = true.
+Proof. induction p as [|a p IH]; cbn; [reflexivity|]. rewrite N.eqb_refl. exact IH. Qed.
+
 Lemma edge_okb_sound rows cr e :
   In cr rows -> In e (r_edges (cr_row cr)) -> edge_okb (sheet_bases rows) e = true ->
-  match c_cname (e_cond e) with [] => @gen_ok (sheet_names rows) (e_cond e) | nm => ~ @gname (sheet_names rows) nm /\ nm <> s_NoResponse end.
+  match c_cname (e_cond e) with [] => @gen_ok (sheet_names rows) (e_cond e) | nm => ~ @gname (sheet_names rows) nm /\ nm <> s_NoResponse end
+  /\ ~ is_bucket_name (bucket_name (e_cond e)).
 Proof.
-  intros H1 H2. unfold edge_okb. destruct (c_cname (e_cond e)) as [|a nm] eqn:En; [intros _; eapply gen_ok_sheet; eauto|].
-  intros H. apply andb_true_iff in H as [Ha Hb]. split.
-  - unfold sheet_names. cbn [gname]. intros Hg. rewrite Hg in Ha. discriminate.
-  - intros E. rewrite E, str_eqb_refl in Hb. discriminate.
+  intros H1 H2. unfold edge_okb. intros H. apply andb_true_iff in H as [H Hbk]. split.
+  - destruct (c_cname (e_cond e)) as [|a nm] eqn:En; [eapply gen_ok_sheet; eauto|].
+    apply andb_true_iff in H as [Ha Hb]. split.
+    + unfold sheet_names. cbn [gname]. intros Hg. rewrite Hg in Ha. discriminate.
+    + intros E. rewrite E, str_eqb_refl in Hb. discriminate.
+  - intros (k & E). rewrite E, starts_with_app in Hbk. discriminate.
 Qed.
 
 Lemma row_okb_sound rows cr :
@@ -138,6 +144,7 @@ Proof.
     destruct (cr_kind cr); try discriminate.
     + apply Nat.leb_le, H6.
     + apply Nat.leb_le, H6.
+    + destruct acts; [reflexivity|discriminate].
     + destruct acts; [reflexivity|discriminate].
     + destruct acts; [reflexivity|discriminate].
     + destruct acts; [reflexivity|discriminate].
